@@ -263,8 +263,7 @@ func measure(entry, expr string, list []string) (s costSample, panicked string) 
 	}
 	best := costSample{Alloc: math.MaxUint64, Malloc: math.MaxUint64, CPU: math.MaxInt64}
 	for rep := 0; rep < 3; rep++ {
-		runtime.GC()
-		var m0, m1 runtime.MemStats
+		var m0, m1 runtime.MemStats // TotalAlloc / Mallocs are cumulative: no GC needed in between
 		runtime.ReadMemStats(&m0)
 		c0 := cpuNow()
 		p := call(entry, expr, list)
@@ -476,13 +475,22 @@ func TestC14_Families(t *testing.T) {
 					break
 				}
 				hist, ns, prevN = append(hist, s), append(ns, n), n
-				if f.product {
+				switch {
+				case f.product:
 					step := n / 4
 					if step < 1 {
 						step = 1
 					}
 					n += step
-				} else {
+				case f.start >= 64: // lengths of a single token: doubling is fine
+					n *= 2
+				case n < 16: // chains and nests: dense while an exponential would still be affordable
+					n += 2
+				case n < 32:
+					n += 4
+				case n < 64:
+					n += 8
+				default:
 					n *= 2
 				}
 			}
